@@ -32,7 +32,7 @@ SimpleApis == {"send", "query", "lsend", "lquery"}
 (* ---- init / calls / time ---------------------------------------------------- *)
 HInit(e) ==
   /\ cfg' = e
-  /\ srv' = [s \in 1..e.nsrv |-> [fails |-> 0, nextRetry |-> 0, m |-> EmptyMetrics, idx |-> s]]
+  /\ srv' = [s \in 1..e.nsrv |-> [fails |-> 0, nextRetry |-> 0, m |-> EmptyMetrics, idx |-> s, dying |-> FALSE]]
   /\ owedF' = [s \in 1..e.nsrv |-> 0]
   /\ owedO' = [s \in 1..e.nsrv |-> 0]
   /\ UNCHANGED <<now, fdi, q, proc, oos, xvars>> /\ Acc
@@ -44,26 +44,64 @@ Probes == {id \in DOMAIN q : q[id].probe}
    flight on them requeued with one more try (and no error of their own) *)
 RECURSIVE PosIn(_, _, _)
 PosIn(L, s, i) == IF i > Len(L) THEN 0 ELSE IF L[i] = s THEN i ELSE PosIn(L, s, i + 1)
+Dying == {s \in DOMAIN srv : srv[s].dying}
+(* order in which the library's server list (least failures first, then position) is walked *)
+Before(a, b) == srv[a].fails < srv[b].fails \/ (srv[a].fails = srv[b].fails /\ srv[a].idx < srv[b].idx)
+InflightOn(s) == {id \in DOMAIN q : q[id].st = "inflight" /\ q[id].srv = s}
+
+(* Servers that are no longer listed are destroyed one after the other in list order; destroying one closes its
+   connections and requeues what was in flight on them -- possibly onto a server that is itself destroyed a moment
+   later, and then requeued again.  A removed server therefore stays a member (marked dying) until the trace shows
+   its connections being closed or the call returns. *)
 HSetServers(e) ==
   LET L == e.list
       keep == ToSet(L)
       gone == (DOMAIN srv) \ keep
-      srv2 == [s \in keep |-> IF s \in DOMAIN srv THEN [srv[s] EXCEPT !.idx = PosIn(L, s, 1)]
-                               ELSE [fails |-> 0, nextRetry |-> 0, m |-> EmptyMetrics, idx |-> PosIn(L, s, 1)]]
-      onGone(id) == q[id].st = "inflight" /\ q[id].srv \in gone
-      tries2 == Cardinality(keep) * cfg.tries
-      rq(rec) == LET tr == rec.try + 1 IN
-                 IF tr < tries2 /\ ~rec.noretry THEN [rec EXCEPT !.st = "tosend", !.try = tr, !.reqsrv = 0]
-                 ELSE [rec EXCEPT !.st = "ending", !.try = tr, !.endst = IF rec.err = "" THEN "ETIMEOUT" ELSE rec.err, !.endrc = -1]
+      busy == \E id \in DOMAIN q : q[id].st = "inflight" /\ q[id].srv \in gone
+      all == IF busy THEN keep \cup gone ELSE keep
+      srv2 == [s \in all |-> IF s \in keep
+                              THEN (IF s \in DOMAIN srv THEN [srv[s] EXCEPT !.idx = PosIn(L, s, 1)]
+                                    ELSE [fails |-> 0, nextRetry |-> 0, m |-> EmptyMetrics, idx |-> PosIn(L, s, 1), dying |-> FALSE])
+                              ELSE [srv[s] EXCEPT !.dying = TRUE]]
   IN
   IF keep = {} \/ \E id \in DOMAIN q : q[id].st = "tosend" THEN OutOfScope
-  ELSE IF Cardinality(gone) > 1 /\ \E id \in DOMAIN q : onGone(id) THEN OutOfScope   \* sequential removal order not modelled
   ELSE /\ srv' = srv2
-       /\ owedF' = [s \in keep |-> IF s \in DOMAIN owedF THEN owedF[s] ELSE 0]
-       /\ owedO' = [s \in keep |-> IF s \in DOMAIN owedO THEN owedO[s] ELSE 0]
-       /\ q' = DropDoneProbes([id \in DOMAIN q |-> IF onGone(id) THEN rq(q[id]) ELSE q[id]])
+       /\ owedF' = [s \in all |-> IF s \in DOMAIN owedF THEN owedF[s] ELSE 0]
+       /\ owedO' = [s \in all |-> IF s \in DOMAIN owedO THEN owedO[s] ELSE 0]
+       /\ q' = DropDoneProbes(q)
        /\ now' = e.now
        /\ UNCHANGED <<cfg, fdi, proc, oos, xvars>> /\ Acc
+
+(* The first visible effect of destroying a dying server -- a query that was in flight on it is re-sent or
+   completed, or one of its connections is closed -- shows that its turn has come: it leaves the list together
+   with the dying servers before it in list order that had nothing in flight, and everything in flight on it is
+   requeued.  This is a step of its own, taken before the event that revealed it is judged. *)
+DyingTarget(e) ==
+  IF e.e = "sk" /\ e.op = "send" THEN
+       IF Len(e.frames) > 0 /\ e.frames[1].qid \in DOMAIN q /\ q[e.frames[1].qid].st = "inflight"
+          /\ q[e.frames[1].qid].srv \in Dying THEN q[e.frames[1].qid].srv ELSE 0
+  ELSE IF e.e = "sk" /\ e.op = "close" THEN
+       IF e.fd \in DOMAIN fdi /\ fdi[e.fd].srv \in Dying THEN fdi[e.fd].srv ELSE 0
+  ELSE IF e.e = "cbb" THEN
+       LET ids == {id \in DOMAIN q : q[id].t = e.t /\ ~q[id].probe}
+           onD == {id \in ids : q[id].st = "inflight" /\ q[id].srv \in Dying}
+       IN IF e.st \notin {"ECANCELLED", "EDESTRUCTION"} /\ onD # {} /\ \A id \in ids : q[id].st # "ending"
+          THEN q[CHOOSE id \in onD : TRUE].srv ELSE 0
+  ELSE 0
+
+DestroyStep(s) ==
+  LET D == {d \in Dying : d = s \/ (Before(d, s) /\ InflightOn(d) = {})}
+      n2 == (Cardinality(DOMAIN srv) - Cardinality(D)) * cfg.tries
+  IN /\ srv' = Without(srv, D)
+     /\ owedF' = Without(owedF, D) /\ owedO' = Without(owedO, D)
+     /\ q' = DropDoneProbes([id \in DOMAIN q |-> IF id \in InflightOn(s) THEN RequeuedN(q[id], n2) ELSE q[id]])
+     /\ UNCHANGED <<cfg, now, fdi, proc, oos, xvars>> /\ Acc
+
+(* a connection is closed: nothing may be left in flight on it *)
+HClose(e) ==
+  IF e.fd \notin DOMAIN fdi \/ fdi[e.fd].srv = 0 THEN Skip
+  ELSE IF OnFd(e.fd) # {} THEN Rej("c06.connection_closed_under_pending_query")
+  ELSE Skip
 
 HCall(e) ==
   IF e.api = "process" THEN
@@ -254,6 +292,7 @@ HSk(e) ==
     [] e.op \in {"opt", "bind"} -> IF e.res = "err" /\ ~(e.op = "opt" /\ e.opt = "tfo") THEN OutOfScope ELSE Skip
     [] e.op = "send" -> HSend(e)
     [] e.op = "recv" -> HRecv(e)
+    [] e.op = "close" -> HClose(e)
     [] OTHER -> Skip
 
 (* ---- notifications, completions, returns ------------------------------------------ *)
@@ -327,7 +366,12 @@ HCbb(e) ==
 TcpQueued(id) == q[id].st = "tosend" /\ q[id].tcp     \* sits in a TCP out buffer until the socket is writable
 
 HRet(e) ==
-  IF e.depth # 0 THEN Skip
+  IF e.api = "setservers" /\ Dying # {} THEN
+       \* the list edit is complete: whatever was still marked is gone (and must not have anything in flight)
+       IF \E d \in Dying : InflightOn(d) # {} THEN Rej("c09.query_left_on_removed_server")
+       ELSE /\ srv' = Without(srv, Dying) /\ owedF' = Without(owedF, Dying) /\ owedO' = Without(owedO, Dying)
+            /\ UNCHANGED <<cfg, now, fdi, q, proc, oos, xvars>> /\ Acc
+  ELSE IF e.depth # 0 THEN Skip
   ELSE IF \E id \in DOMAIN q : q[id].st = "tosend" /\ ~TcpQueued(id) THEN Rej("c06.retry_not_performed")
   ELSE IF \E id \in DOMAIN q : q[id].st = "ending" THEN Rej("c06.completion_not_delivered")
   ELSE IF \E s \in DOMAIN srv : owedF[s] > 0 \/ owedO[s] > 0 THEN Rej("c09.server_state_notification_missing")
@@ -365,9 +409,9 @@ TInit == /\ RInit /\ toks = <<>> /\ tcpin = <<>> /\ openfail = FALSE /\ newtry =
 
 TNext ==
   /\ l <= Len(Tr)
-  /\ l' = l + 1
   /\ LET e == Tr[l] IN
        IF e.e = "reset" THEN
+            /\ l' = l + 1
             /\ (hid # "" => PrintT(ToJson(Verdict)))
             /\ cfg' = [nsrv |-> 0] /\ now' = 0 /\ srv' = <<>> /\ fdi' = <<>> /\ q' = <<>> /\ owedF' = <<>> /\ owedO' = <<>>
             /\ proc' = [in |-> FALSE, nonfd |-> FALSE, nrecv |-> 0] /\ oos' = FALSE
@@ -375,7 +419,9 @@ TNext ==
             /\ bad' = FALSE /\ why' = [line |-> 0, label |-> ""]
             /\ hid' = e.id
        ELSE /\ hid' = hid
-            /\ IF bad \/ oos THEN Skip ELSE Handle(e)
+            /\ IF bad \/ oos THEN Skip /\ l' = l + 1
+               ELSE IF DyingTarget(e) # 0 THEN DestroyStep(DyingTarget(e)) /\ l' = l     \* silent step, the event is judged next
+               ELSE Handle(e) /\ l' = l + 1
 
 TSpec == TInit /\ [][TNext]_tvars
 =============================================================================
